@@ -250,7 +250,8 @@ def txn_steps(draw, st, nparts, n_txn):
                 body.append(["send", draw(st.integers(0, nparts - 1)), 0, False])
         end = draw(st.sampled_from(["commit", "commit", "abort"]))
         if draw(st.integers(0, 3)) == 0:
-            steps.append(["ctx_ok" if end == "commit" else "ctx_exc", body])
+            steps.append(["ctx_ok" if end == "commit" else "ctx_exc", body] +
+                         (["base"] if end != "commit" and draw(st.booleans()) else []))
         else:
             steps.append(["begin"])
             steps.extend(body)
